@@ -436,6 +436,8 @@ def run_property(prop, tier, instances, meta, seed=0, jobs=None):
         st = r.get("stats", {})
         for k, v in st.items():
             tot[k] = tot.get(k, 0) + v
+        if st.get("xcheck_disagree", 0):
+            inconclusive.append("%s: z3 and cvc5 disagree on %d sampled queries" % (r["name"], st["xcheck_disagree"]))
         if st.get("unknown", 0) or st.get("refined_unknown", 0):
             unk = sum(c[2] for c in r.get("checks", {}).values())
             if unk or st.get("refined_unknown", 0):
@@ -508,7 +510,9 @@ def write_evidence(prop, tier, seed, results, meta, tot, wall, n_viol, known_key
         "queries": {"feasibility": tot.get("feas_queries", 0), "property": tot.get("prove_queries", 0),
                     "unsat": tot.get("unsat", 0), "sat_exact": tot.get("sat", 0) + tot.get("refined_sat", 0),
                     "uf_sat_refined_unsat": tot.get("refined_unsat", 0),
-                    "unknown": tot.get("unknown", 0) + tot.get("refined_unknown", 0)},
+                    "unknown": tot.get("unknown", 0) + tot.get("refined_unknown", 0),
+                    "cvc5_cross_checked_agree": tot.get("xcheck_agree", 0), "cvc5_cross_checked_disagree": tot.get("xcheck_disagree", 0),
+                    "cvc5_cross_checked_unknown": tot.get("xcheck_unknown", 0)},
         "solver_s": round(tot.get("solver_s", 0.0), 2),
         "per_check": {k: {"unsat": v[0], "sat": v[1], "unknown": v[2]} for k, v in sorted(per_label.items())},
         "path_classes_covered": _merge_counts(r.get("covered", {}) for r in results),
